@@ -5,6 +5,8 @@ from __future__ import annotations
 
 import abc
 import enum
+
+from jsonargparse import lazy_instance
 from dataclasses import dataclass, field
 from typing import Any, Dict, List, Optional, Tuple, Union
 
@@ -105,6 +107,14 @@ class SubList(Base):
     def __init__(self, items: Optional[List[int]] = None, t: Tuple[int, str] = (1, "a")):
         self.items, self.t = items, t
         rec(self, items=items, t=t)
+
+
+class HolderLazy:
+    """a class whose class-typed parameter has a default spec with init_args (used as a class group)"""
+
+    def __init__(self, child: Base = lazy_instance(SubA, a=5, b="lz"), n: int = 0):
+        self.child, self.n = child, n
+        rec(self, child=child, n=n)
 
 
 class WithOptDC(Base):
